@@ -128,9 +128,8 @@ func VerifC15ObjectOps() {
 		v.Cover("loaded")
 	}
 	for step := 0; step < 2; step++ {
-		op := v.Int("op", 0, 2)
-		k := v.Byte("opKey")
-		v.Assume(k == 'a' || k == 'b' || k == 'c' || k == 'd')
+		op := v.Concretize(v.Int("op", 0, 2))
+		k := byte('a' + v.Concretize(v.Int("opKeyIdx", 0, 3))) // a..d, fixed once chosen
 		d := byte('7' + step)
 		key := string([]byte{k})
 		switch op {
@@ -175,8 +174,22 @@ func VerifC15ArrayOps() {
 		v.Cover("loaded")
 	}
 	for step := 0; step < 2; step++ {
-		op := v.Int("op", 0, 3)
-		idx := v.Int("opIdx", -1, 4)
+		// one of 27 operations per step, chosen symbolically and then fixed (the solver
+		// enumerates the choices; everything after the choice is concrete for this document)
+		sel := v.Concretize(v.Int("sel", 0, 26))
+		op, idx, dst := 0, 0, 0
+		switch {
+		case sel < 5: // SetByIndex(-1..3)
+			op, idx = 0, sel-1
+		case sel < 10: // UnsetByIndex(-1..3)
+			op, idx = 1, sel-6
+		case sel == 10:
+			op = 2
+		case sel == 11:
+			op = 3
+		default: // Move(dst 0..2, src -1..3)
+			op, idx, dst = 4, (sel-12)%5-1, (sel-12)/5
+		}
 		d := byte('7' + step)
 		nn := NewNumber(string([]byte{d}))
 		switch op {
@@ -203,6 +216,15 @@ func VerifC15ArrayOps() {
 			if len(model) > 0 {
 				v.Assert(root.Pop() == nil, "Pop fails")
 				model = model[:len(model)-1]
+			}
+		case 4: // Move(dst, src), both in range
+			src := idx
+			if src >= 0 && src < len(model) && dst < len(model) {
+				v.Assert(root.Move(dst, src) == nil, "Move fails")
+				x := model[src]
+				rest := append(append([]byte{}, model[:src]...), model[src+1:]...)
+				model = append(append(append([]byte{}, rest[:dst]...), x), rest[dst:]...)
+				v.Cover("move")
 			}
 		}
 		// observe: every index and one past the end
